@@ -8,6 +8,7 @@ mod common;
 mod blocks;
 mod conc;
 mod drip;
+mod fsink;
 mod graphs;
 mod hdlc;
 mod ring;
@@ -22,6 +23,11 @@ fn main() {
         Some("ring") => ring::run(&args),
         Some("blocks") => blocks::run(&args),
         Some("sched") => sched::run(&args),
+        Some("fsink") => fsink::run(&args),
+        Some("fsink-child") => {
+            fsink::child(&args);
+            vec![]
+        }
         Some("hdlc") => hdlc::run(&args),
         Some("graphs") => graphs::run(&args),
         Some("sources") => sources::run(&args),
